@@ -24,11 +24,20 @@ ClassFrom == IF Full THEN 0 ELSE (Seed * 977) % 9500
 ClassTo   == IF Full THEN 9999 ELSE ClassFrom + 499
 NSlices   == IF Full THEN 64 ELSE 8
 
+(* The calendar is the proleptic Gregorian one whatever time zone the process runs in: the zone is an  *)
+(* environment parameter of every case that no result may depend on.  The zones below start daylight *)
+(* saving time at midnight (so a local midnight does not exist once a year) or skipped a whole day.  *)
+Zones == <<"UTC", "America/Santiago", "Africa/Cairo", "America/Havana", "America/Sao_Paulo", "Asia/Beirut",
+           "Pacific/Apia", "Asia/Tehran", "America/Asuncion">>
+ZonesOf(y) == IF y \in 1990..2030 /\ (Full \/ (y + Seed) % 4 = 0) THEN {Zones[i] : i \in 1..Len(Zones)}
+              ELSE {"UTC", Zones[((y + Seed) % (Len(Zones) - 1)) + 2]}
+
 Shards == {[k |-> "years", n |-> c] : c \in 0..99} \cup {[k |-> "classes", n |-> 0]}
 
 CasesOf(sh) ==
     IF sh.k = "years"
-    THEN {[kind |-> "cal_year", year |-> sh.n * 100 + y] : y \in {yy \in 0..99 : YearPick(sh.n * 100 + yy)}}
+    THEN UNION {{[kind |-> "cal_year", year |-> sh.n * 100 + y, tz |-> z] : z \in ZonesOf(sh.n * 100 + y)}
+                    : y \in {yy \in 0..99 : YearPick(sh.n * 100 + yy)}}
     ELSE {[kind |-> "hash_classes", from |-> ClassFrom, to |-> ClassTo, k |-> k, slice |-> s, of |-> NSlices]
             : k \in {"week", "month", "quarter", "year"}, s \in 1..NSlices}
          \cup {[kind |-> "hash_classes", from |-> ClassFrom, to |-> ClassTo, k |-> "day", slice |-> 1, of |-> 1]}
